@@ -45,6 +45,17 @@ def gen_cases(tier, seed):
             size = r.choice([0, 1, PAGE, (1 << 20) + 3])
         yield {"kind": "file", "size": size, "segs": segs, "sync": r.random() < 0.5, "fs": "tmpfs" if r.random() < 0.3 else "ext4", "seed": r.randrange(1, 1 << 30),
                "first0": first0, "lastbyte": bool(lastbyte), "dense": False}
+    for i in range(40 if tier == "quick" else 600):
+        # alternating written / preallocated-unwritten blocks: every extent touches its neighbours, so extents meet
+        # exactly at FIEMAP page boundaries (32, 64, ...); random phase decides which of them carry data
+        nblk = r.choice([33, 34, 40, 64, 65, 66, 70, 97, 130])
+        phase = r.randrange(2)
+        start = r.choice([0, 0, PAGE, 16 * PAGE])
+        segs = [[start + k * PAGE, PAGE] for k in range(nblk) if k % 2 == phase]
+        tail = start + nblk * PAGE + (4 << 20)
+        segs.append([tail, r.choice([1, 100, PAGE])])
+        yield {"kind": "file", "size": tail + segs[-1][1] + r.choice([0, 1, 5000]), "segs": segs, "falloc": [[start, nblk * PAGE]], "sync": True,
+               "fs": "ext4", "seed": r.randrange(1, 1 << 30), "first0": start == 0 and phase == 0, "lastbyte": False, "dense": False, "touching": True}
     for i in range(12 if tier == "quick" else 100):
         size = r.choice([0, 1, 4095, 4096, 4097, 100000, 1 << 20])
         yield {"kind": "file", "size": size, "segs": None, "sync": r.random() < 0.5, "fs": "tmpfs" if r.random() < 0.3 else "ext4", "seed": r.randrange(1, 1 << 30),
@@ -101,7 +112,7 @@ def check_ranges(name, ranges, size, written, path, res, tag):
 def run_file(case, res):
     with core.Sandbox(case["fs"], "c19") as sb:
         root = sb.root
-        e = {"p": "f", "k": "f", "size": case["size"], "segs": case["segs"], "seed": case["seed"], "sync": case["sync"]}
+        e = {"p": "f", "k": "f", "size": case["size"], "segs": case["segs"], "seed": case["seed"], "sync": case["sync"], "falloc": case.get("falloc")}
         tree.materialize(root, [e])
         path = os.path.join(b(root), b"f")
         r = subprocess.run([PROBE_BIN["probe_fs"], "map", path], capture_output=True, timeout=120)
@@ -125,6 +136,9 @@ def run_file(case, res):
                 res["counters"]["extents-reported"] = len(j["extents"])
                 if len(j["extents"]) > 32:
                     res["counters"]["files-with->32-extents"] = 1
+                    ex = j["extents"]
+                    if any(ex[k][0] == ex[k - 1][1] for k in range(32, len(ex), 32)):
+                        res["counters"]["files-with-extents-touching-at-a-page-boundary"] = 1
         if j["seg_err"]:
             res["viol"].append({"sig": "segments:error", "what": "next_sparse_segments iteration failed: %s; %s" % (j["seg_err"], tag)})
         else:
@@ -134,7 +148,7 @@ def run_file(case, res):
         res["counters"]["fs:" + case["fs"]] = 1
         n = len(written)
         res["evals"].append({"key": [case["fs"], "0" if n == 0 else "1-3" if n <= 3 else "4-32" if n <= 32 else ">32", case["first0"], case["lastbyte"], case["sync"],
-                                     case["size"] % PAGE == 0, case["dense"]],
+                                     case["size"] % PAGE == 0, case["dense"], bool(case.get("touching"))],
                              "sample": {"fs": case["fs"], "size": case["size"], "written": written[:5], "n_written": n, "synced": case["sync"],
                                         "extents": (j["extents"] or [])[:5] if not isinstance(j["extents"], dict) else j["extents"],
                                         "n_extents": len(j["extents"]) if isinstance(j["extents"], list) else None, "segments": j["segments"][:5]}})
